@@ -39,3 +39,93 @@ def obligations(tier, seed):
         add("c06_powall_p%d" % p, covers=2, desc="pow over every 64-bit exponent = Fermat-reduced product", bounds="p=%d, all d<2^64" % p)
     add("c06_twin_false", expect="fail", desc="deliberately false twin")
     return obs
+
+
+# ---------------------------------------------------------------- all moduli at once (mirsym on the MIR of rlib_mint, z3)
+import os, sys, json, subprocess, time
+from vp import kani as _k
+
+META["functions_encoded"].append("MIR of rlib_mint::Modular::<M>::{new,add,sub,neg,mul,add_assign,sub_assign,mul_assign,eq,read,write} with the const generic M a SYMBOLIC operand (2 <= M < 2^31)")
+META["bounds"]["quick"] += "; new,+,-,neg,*,assigning forms,==,Readable,Writable for EVERY modulus 2 <= M < 2^31 and all operands (SMT, symbolic modulus)"
+META["stubs_and_assumes"] += ["Reader::read::<i64> = arbitrary i64; <u32 as Writable>::write = recording stub", "mul is discharged as three lemmas (product non-negative; srem = urem for non-negative dividends; remainder fits i32) plus the path obligation under their instances"]
+
+REPLAY_MAIN = '''use rlib_mint::Modular;
+fn main() {
+    const M: u32 = %(M)d;
+    type Z = Modular<M>;
+    let x = Z::new(%(x)d);
+    let y = Z::new(%(y)d);
+    let v: i64 = %(v)d;
+    println!("new={}", Z::new(v).inner());
+    println!("add={}", (x + y).inner());
+    println!("sub={}", (x - y).inner());
+    println!("neg={}", (-x).inner());
+    println!("mul={}", (x * y).inner());
+    println!("eq={}", x == y);
+    let text = format!("{}", v);
+    let mut r = rlib_io::Reader::new(Box::new(std::io::Cursor::new(text.into_bytes())));
+    let z: Z = r.read();
+    println!("read={}", z.inner());
+}
+'''
+
+
+def native_mint(vals):
+    d = os.path.join(_k.BUILD, "C06", "mintreplay")
+    os.makedirs(os.path.join(d, "src"), exist_ok=True)
+    open(os.path.join(d, "Cargo.toml"), "w").write('[package]\nname = "vh_mintreplay"\nversion = "0.0.0"\nedition = "2021"\n\n[workspace]\n\n[dependencies]\nrlib_mint = { path = "%s/rlib/mint" }\nrlib_io = { path = "%s/rlib/io" }\n' % (_k.REPO, _k.REPO))
+    open(os.path.join(d, "src", "main.rs"), "w").write(REPLAY_MAIN % vals)
+    env = dict(os.environ); env["CARGO_NET_OFFLINE"] = "true"
+    p = subprocess.run(["cargo", "run", "--offline", "-q"], cwd=d, env=env, stdout=subprocess.PIPE, stderr=subprocess.PIPE, text=True, timeout=300)
+    return dict(l.split("=") for l in p.stdout.strip().splitlines() if "=" in l), p.stderr[-300:]
+
+
+def expected_mint(vals):
+    M, x, y, v = vals["M"], vals["x"] % vals["M"], vals["y"] % vals["M"], vals["v"]
+    return {"new": str(v % M), "add": str((x + y) % M), "sub": str((x - y) % M), "neg": str((-x) % M), "mul": str(x * y % M), "eq": str(x == y).lower(), "read": str(v % M)}
+
+
+def run_engine(tier, seed, known, only):
+    sys.path.insert(0, _k.VERIF)
+    from mirsym import core
+    from mirsym.mint_check import MintProgram, MintCheck
+    out = {"records": [], "violations": [], "known": [], "inconclusive": []}
+    try:
+        txt = core.dump_mir(_k.REPO, "rlib/mint", os.path.join(_k.BUILD, "C06", "mir"), False, "rel")
+        P = MintProgram(txt)
+        res = MintCheck(P).run_all()
+    except core.Unsupported as e:
+        out["inconclusive"].append({"obligation": "mint-all-moduli", "reason": "mirsym: %s" % e})
+        return out
+    for r in res:
+        rec = {"name": "allmod:" + r["name"], "engine": "mirsym", "status": r["status"], "ok": r["status"] == "PASS", "queries": r.get("queries", 1), "time": r["time"],
+               "solver_time": r["time"], "desc": r["desc"], "bounds": "every modulus 2 <= M < 2^31, all operands"}
+        print("  [C06] %-8s %-28s %6.1fs" % (r["status"], rec["name"], r["time"]), flush=True)
+        out["records"].append(rec)
+        if r["status"] == "UNKNOWN":
+            out["inconclusive"].append({"obligation": rec["name"], "reason": r.get("detail", "unknown")})
+        elif r["status"] == "FAIL":
+            mdl = r.get("model") or {}
+            if isinstance(mdl, str):
+                mdl = {}
+            vals = {"M": mdl.get("M", 7), "x": mdl.get("x", 0), "y": mdl.get("y", 0), "v": mdl.get("v", mdl.get("read0", 0))}
+            if vals["v"] >= 1 << 63:
+                vals["v"] -= 1 << 64
+            key = r["name"].split("_")[0].replace("-lemma-a", "").replace("-lemma-b", "").replace("-lemma-c", "")
+            try:
+                nat, err = native_mint(vals)
+                exp = expected_mint(vals)
+                k2 = key if key in exp else None
+                bad = [k for k in exp if nat.get(k) != exp[k]] if nat else []
+                text = "M=%(M)d x=%(x)d y=%(y)d v=%(v)d" % vals + " native=%s expected=%s %s" % (nat, exp, err if not nat else "")
+                ok = bool(bad) or (not nat and "panicked" in err)
+            except Exception as e:
+                ok, text = False, "replay failed: %r" % (e,)
+            if ok:
+                rdir = os.path.join(_k.VERIF, "replays", "C06"); os.makedirs(rdir, exist_ok=True)
+                path = os.path.join(rdir, "mint_%s.json" % r["name"])
+                json.dump({"property": "C06", "obligation": r["name"], "values": vals, "native": text}, open(path, "w"), indent=1)
+                out["violations"].append("VIOLATION property=C06 replay=%s" % os.path.relpath(path, _k.VERIF))
+            else:
+                out["inconclusive"].append({"obligation": rec["name"], "reason": "refuted in the model (%s) but not reproduced natively: %s" % (r.get("detail"), text[:200])})
+    return out
